@@ -10,6 +10,7 @@ import (
 	"go/token"
 	"go/types"
 	"math/big"
+	"os"
 	"sort"
 	"strings"
 
@@ -17,10 +18,10 @@ import (
 )
 
 type loopInfo struct {
-	head  *ssa.BasicBlock
-	body  map[*ssa.BasicBlock]bool
-	ord   int
-	fn    *ssa.Function
+	head *ssa.BasicBlock
+	body map[*ssa.BasicBlock]bool
+	ord  int
+	fn   *ssa.Function
 }
 
 type FnCtx struct {
@@ -396,6 +397,9 @@ func (ex *Exec) runInstrs(st *State, fc *FnCtx, b *ssa.BasicBlock, start int, pr
 				ex.runBlock(st, fc, b.Succs[1], b)
 				return
 			}
+			if ex.tryDiamond(st, fc, b, c) {
+				return
+			}
 			st2 := st.clone()
 			st.assume(c)
 			st.pathTag = append(st.pathTag, fmt.Sprintf("b%d+", b.Index))
@@ -406,6 +410,10 @@ func (ex *Exec) runInstrs(st *State, fc *FnCtx, b *ssa.BasicBlock, start int, pr
 			ex.runBlock(st2, fc, b.Succs[1], b)
 			return
 		case *ssa.Jump:
+			if ex.diamondStop != nil && b.Succs[0] == ex.diamondStop && ex.diamondEnds != nil {
+				*ex.diamondEnds = append(*ex.diamondEnds, st)
+				return
+			}
 			ex.runBlock(st, fc, b.Succs[0], b)
 			return
 		case *ssa.Return:
@@ -892,7 +900,6 @@ func fnPkg(fn *ssa.Function) *types.Package {
 	return nil
 }
 
-
 // assumeUses assumes instances of named axioms / lemmas (`use name(args)`).
 // Only applications of macros declared `axiom` or `lemma` are accepted.
 func (ex *Exec) assumeUses(st *State, env *SpecEnv, uses []*Clause) {
@@ -923,4 +930,181 @@ func (ex *Exec) assumeUses(st *State, env *SpecEnv, uses []*Clause) {
 		ex.usedAxioms[m.Kind+":"+name] = true
 		st.assume(t)
 	}
+}
+
+// tryDiamond: if-conversion of `if c { T }` where T is a single straight-line
+// block that rejoins the other successor. The conditional block is executed
+// under c and the two states are merged with ite, which keeps sequences of
+// independent conditionals (default assignments, counters) linear instead of
+// exponential in paths. Falls back (returns false, nothing changed) when the
+// shape or the states do not allow an exact merge.
+func (ex *Exec) tryDiamond(st *State, fc *FnCtx, b *ssa.BasicBlock, c Term) bool {
+	if ex.ct != nil && ex.ct.NoMerge {
+		return false
+	}
+	var T, J *ssa.BasicBlock
+	cond := c
+	s0, s1 := b.Succs[0], b.Succs[1]
+	switch {
+	case len(s0.Succs) == 1 && s0.Succs[0] == s1 && len(s0.Preds) == 1:
+		T, J = s0, s1
+	case len(s1.Succs) == 1 && s1.Succs[0] == s0 && len(s1.Preds) == 1:
+		T, J = s1, s0
+		cond = not(c)
+	default:
+		return false
+	}
+	if _, isLoop := fc.loops[T]; isLoop {
+		return false
+	}
+	if _, isLoop := fc.loops[J]; isLoop {
+		return false
+	}
+	for _, in := range T.Instrs {
+		switch in.(type) {
+		case *ssa.If, *ssa.Return, *ssa.Panic, *ssa.RunDefers, *ssa.Defer, *ssa.Go, *ssa.Select, *ssa.Next, *ssa.Range:
+			return false
+		}
+	}
+	base := len(st.log)
+	a := st.clone()
+	a.assume(cond)
+	goalsBefore := len(ex.goals)
+	pathsBefore := ex.paths
+	var ends []*State
+	// run T's instructions; the continuation of the final Jump is intercepted
+	sub := *fc
+	prevStop, prevEnds := ex.diamondStop, ex.diamondEnds
+	ex.diamondStop = J
+	ex.diamondEnds = &ends
+	func() {
+		defer func() { ex.diamondStop, ex.diamondEnds = prevStop, prevEnds }()
+		ex.runInstrs(a, &sub, T, 0, b)
+	}()
+	ok := len(ends) == 1
+	var A *State
+	if ok {
+		A = ends[0]
+		ok = A.heap.epoch == st.heap.epoch && len(A.defers) == len(st.defers) && len(A.open) == len(st.open) && !A.pendingAll && len(A.pendingBound) == 0 && len(st.pendingBound) == 0
+	}
+	if !ok && os.Getenv("GVC_DEBUG_MERGE") != "" {
+		fmt.Fprintf(os.Stderr, "merge fallback at b%d in %s: ends=%d\n", b.Index, fc.fn.Name(), len(ends))
+		if len(ends) == 1 {
+			A := ends[0]
+			fmt.Fprintf(os.Stderr, "   epoch %d/%d defers %d/%d open %d/%d pendingAll=%v pend %d/%d\n", A.heap.epoch, st.heap.epoch, len(A.defers), len(st.defers), len(A.open), len(st.open), A.pendingAll, len(A.pendingBound), len(st.pendingBound))
+		}
+	}
+	if !ok {
+		// undo: discard goals and path counts produced by the trial
+		ex.goals = ex.goals[:goalsBefore]
+		ex.paths = pathsBefore
+		return false
+	}
+	m := st.clone()
+	// extra log lines of the conditional branch, guarded
+	for _, l := range A.log[base:] {
+		if strings.HasPrefix(l, "(assert ") {
+			body := l[len("(assert ") : len(l)-1]
+			m.log = append(m.log, "(assert (=> "+cond.S+" "+body+"))")
+		} else {
+			m.log = append(m.log, l)
+		}
+	}
+	for k, v := range A.env {
+		if _, have := m.env[k]; !have {
+			m.env[k] = v
+		}
+	}
+	for k, v := range A.cellOf {
+		m.cellOf[k] = v
+	}
+	for cell, av := range A.cells {
+		bv, have := st.cells[cell]
+		if !have {
+			m.cells[cell] = av
+			continue
+		}
+		if av.S != bv.S {
+			m.cells[cell] = ex.define(m, "mg", ite(cond, av, bv))
+		}
+	}
+	for name, av := range A.heap.m {
+		bv, have := st.heap.m[name]
+		if !have {
+			_, vs, _ := arrayParts(av.So)
+			bv = ex.comp(st.heap, name, vs)
+			delete(st.heap.m, name)
+		}
+		if av.S != bv.S {
+			m.heap.m[name] = ex.define(m, "mh", ite(cond, av, bv))
+		} else {
+			m.heap.m[name] = av
+		}
+	}
+	if A.alloc.S != st.alloc.S {
+		m.alloc = ex.define(m, "ma", ite(cond, A.alloc, st.alloc))
+	}
+	if A.heapBound.S != st.heapBound.S {
+		m.heapBound = ex.define(m, "mb", ite(cond, A.heapBound, st.heapBound))
+	}
+	for k, av := range A.compBound {
+		bv, have := st.compBound[k]
+		if !have {
+			bv = st.baseAlloc
+			if st.havocEpochBound.S != "" {
+				bv = st.havocEpochBound
+			}
+		}
+		if bv.S == "" || av.S == bv.S {
+			m.compBound[k] = av
+		} else {
+			m.compBound[k] = ex.define(m, "mc", ite(cond, av, bv))
+		}
+	}
+	for k := range m.nonnil {
+		if !A.nonnil[k] {
+			delete(m.nonnil, k)
+		}
+	}
+	for k := range m.unfolded {
+		if !A.unfolded[k] {
+			delete(m.unfolded, k)
+		}
+	}
+	for k, av := range A.visited {
+		if bv, have := st.visited[k]; have && av.S != bv.S {
+			m.visited[k] = ex.define(m, "mv", ite(cond, av, bv))
+		}
+	}
+	// phis of the join block: select by the branch condition
+	for _, in := range J.Instrs {
+		phi, ok := in.(*ssa.Phi)
+		if !ok {
+			continue
+		}
+		var vT, vB Val
+		for i, p := range J.Preds {
+			if p == T {
+				vT = ex.val(A, phi.Edges[i])
+			} else if p == b {
+				vB = ex.val(st, phi.Edges[i])
+			}
+		}
+		tT, okT := vT.(Term)
+		tB, okB := vB.(Term)
+		if !okT || !okB {
+			ex.goals = ex.goals[:goalsBefore]
+			ex.paths = pathsBefore
+			return false
+		}
+		if m.phiOverride == nil {
+			m.phiOverride = map[*ssa.Phi]Val{}
+		}
+		m.phiOverride[phi] = ex.define(m, "phi", ite(cond, tT, tB))
+	}
+	m.localMaps = A.localMaps
+	m.pathTag = append(m.pathTag, fmt.Sprintf("b%d*", b.Index))
+	ex.merged++
+	ex.runBlock(m, fc, J, b)
+	return true
 }
